@@ -24,6 +24,8 @@ if os.environ.get('SEED_SKIP_LOG') and os.path.exists(os.environ['SEED_SKIP_LOG'
 def one(d):
     sid = os.path.basename(d)
     meta = json.load(open(os.path.join(d, 'meta.json')))
+    if meta.get('obsolete'):
+        return (sid, False, False, 'obsolete', meta['obsolete'][:90])
     if sid in DONE:
         return (sid, meta.get('patch_applies'), meta.get('valid_seed'), ','.join(meta.get('detected_by', [])) or '-',
                 (list(meta.get('checks', {}).values())[0]['first_clauses'] or [''])[0][:90] if meta.get('checks') else '')
